@@ -9,8 +9,6 @@ Local Open Scope Z_scope.
 (* a TypeError/ValueError, or one of the two artefacts of the model (never raised by Python) *)
 Definition okx (x : exn) : bool := is_te_ve x || model_exn x.
 
-Definition is_index_error (x : exn) : bool := match x with IndexError => true | _ => false end.
-
 (* well-formed declaration: multiplesOf is not 0 (Number._validate_static would divide by it) and a Tuple
    declares at least one item field -- both are rejected by the field constructors of typedpy *)
 Fixpoint wf_field (f : field) : bool :=
@@ -25,25 +23,13 @@ Fixpoint wf_field (f : field) : bool :=
   | _ => true
   end.
 
-(* no positional container (Tuple, Array/Deque with a list of item fields) is reachable without crossing a
-   multi-field wrapper: deserialize_list_like indexes value[i] only for those (finding F9), and a wrapper
-   turns whatever an alternative raises into "does not match" *)
-Fixpoint posfree (f : field) : bool :=
-  match f with
-  | FSeqPos _ _ _ _ _ | FTuple _ _ => false
-  | FSeqEach _ g _ _ => posfree g
-  | FSet _ (Some g) _ => posfree g
-  | FMapKV kf vf _ => posfree kf && posfree vf
-  | _ => true
-  end.
-
 Definition class_all (p : field -> bool) (c : classdef) : bool :=
   forallb (fun fd => p (fd_field fd)) (c_fields c).
 
 Definition env_wf (e : env) : bool := forallb (class_all wf_field) e.
-Definition env_posfree (e : env) : bool := forallb (class_all posfree) e.
 
-(* the full error-class statement (false of the faithful model, see DeserExnProofs.error_class_refuted) *)
+(* the full error-class statement (DeserExnProofs.deserialize_error_class): positional containers included -- a
+   document shorter than the positional items is rejected with ValueError before any element is indexed *)
 Definition error_class_statement : Prop :=
   forall re_match e ens fl n ku cn j x, env_wf e = true ->
     deserialize re_match e ens fl n ku cn j = Raise x -> is_te_ve x = true \/ model_exn x = true.
